@@ -24,3 +24,7 @@ claim('C06', 'Hypothesis-generated segments/intervals/paths in two configuration
       'About 6.5k (quick) / 170k (thorough) length queries over all four segment types with collinear, fold-back, repeated-point, degree-elevated and cusp-like classes and eccentric rotated arcs; each value must be finite, non-negative, inside the [chords, control polygons] bracket, equal to independent quadrature within the stated tolerance, additive over adjacent intervals; path length = sum of segments; run with scipy and with scipy import blocked.',
       'Trusts: vp/ref/bez_ref.py de Casteljau subdivision; numpy leggauss nodes; the numerical reading of "speed vanishes" (min speed <= 1e-4 max speed); arcs are measured on the library\'s stored centre parameters.',
       'DESIGN.md 2/C06')
+claim('C07', 'Hypothesis-generated curves and boundary-aimed s values in two configurations; inverse-relation oracle length(0, ilength(s)) = s, monotonicity, totality, ValueError outside [0,L]',
+      'About 830 (quick) / 21k (thorough) curves x ~7 s-values: each segment type and mixed paths at scales 1e-3..1e6, s at 0, L, interior, dyadic fractions, the last double below L and every cumulative segment length +-1 ulp; the returned parameter must lie in [0,1] and invert length within max(1e-12, 1e-9 L); the iteration-cap exception is the observable for non-termination.',
+      'Trusts: length() itself (C06); the 1e-9*L reading of "floating-point resolution of L"; no-scipy configuration sampled thinly (each call costs ~1 s).',
+      'DESIGN.md 2/C07')
